@@ -232,6 +232,12 @@ func runProps(props []string, tier, repo, verif string, seed int, writeEv bool, 
 					ne += len(es)
 				}
 				analysed["callgraph_edges"] = ne
+				if len(l.p.Renames) > 0 {
+					analysed["renamed_anchors_followed"] = l.p.Renames
+					for _, rn := range l.p.Renames {
+						fmt.Printf("NOTE      %s: %s\n", prop, rn)
+					}
+				}
 			}
 			for _, r := range rules {
 				if only != "" && r.ID != only {
